@@ -46,6 +46,11 @@ def main():
     b = bytearray(elf[:0x40]); struct.pack_into('<Q', b, 0x28, 0xFFFFFFFFFFFFFFFF); struct.pack_into('<HHH', b, 0x3A, 0x41, 1, 0)
     W.append(('elf_shoff_wrap', 'add-elf', bytes(b), X.NAME, b'abc', 'PANIC add', 'PANIC split', 'ELF with e_shoff = 2^64-1 and e_shentsize = len+1: the size check wraps in release builds and split_off panics'))
 
+    # two valid files for the non-vacuity Examples of Props/C19.v (not part of the corpus)
+    pe16, _ = small_pe(fa=16, nsec=1, gap=0)
+    V = [('elf_ok', bytes(elf), 'a valid small ELF64 (null, .text, .shstrtab)'),
+         ('pe_ok', bytes(pe), 'a valid small PE (1 section, FileAlignment 512, room for a header after the section headers)'),
+         ('pe16_ok', bytes(pe16), 'a valid small PE (1 section, FileAlignment 16, no room after the section headers)')]
     for (wid, op, exe, name, payload, dbg, rel, what) in W:
         with open(os.path.join(VERIF, 'corpus', 'C19', 'F9-%s.json' % wid), 'w') as f:
             json.dump({'id': 'F9-' + wid, 'op': op, 'exe': exe.hex(), 'name': name.hex(), 'payload': payload.hex(),
@@ -54,6 +59,10 @@ def main():
          'From RJ Require Import Base.Prelude Model.LE.', 'Local Open Scope N_scope.', '',
          'Definition bytes_of (l : list N) : list byte := map n2b l.', '']
     for (wid, op, exe, name, payload, dbg, rel, what) in W:
+        v.append('(* %s *)' % what)
+        v.append('Definition w_%s : list byte := bytes_of [%s].' % (wid, '; '.join(str(x) for x in exe)))
+        v.append('')
+    for (wid, exe, what) in V:
         v.append('(* %s *)' % what)
         v.append('Definition w_%s : list byte := bytes_of [%s].' % (wid, '; '.join(str(x) for x in exe)))
         v.append('')
